@@ -271,6 +271,140 @@ def o2_pools(chk, prog):
     chk.end(ob)
 
 
+# ------------------------------------------------------------------------------------------------ O3 identity of a definition
+# reload_config rebuilds the pools only if `old_config != new_config`, and from_config keeps an existing pool iff Pool::hash_value of the
+# new definition equals the hash the pool was built from.  Both are the PartialEq / Hash impls of the configuration structs (derived or
+# hand-written): a field that one of them leaves out is a setting whose change never takes effect.
+PRIMS = {'bool': 1, 'u8': 8, 'u16': 16, 'i16': 16, 'u32': 32, 'i32': 32, 'u64': 64, 'i64': 64, 'usize': 64, 'isize': 64}
+POOL_TREE = ['Pool', 'User', 'Shard', 'ServerConfig', 'MirrorServerConfig', 'Plugins', 'Intercept', 'TableAccess', 'QueryLogger', 'Prewarmer', 'Query']
+PATHS = {'Pool': [], 'User': ['users', '0'], 'Shard': ['shards', '0'], 'ServerConfig': ['shards', '0', 'servers', 0], 'MirrorServerConfig': ['shards', '0', 'mirrors', 0],
+         'Plugins': ['plugins'], 'Intercept': ['plugins', 'intercept'], 'TableAccess': ['plugins', 'table_access'], 'QueryLogger': ['plugins', 'query_logger'],
+         'Prewarmer': ['plugins', 'prewarmer'], 'Query': ['plugins', 'intercept', 'queries', 'q0']}
+POOL_PATCH = {'plugins': {'intercept': {'enabled': True, 'queries': {'q0': {'query': 'select 1', 'schema': [['c', 'text']], 'result': [['1']]}}},
+                          'table_access': {'enabled': True, 'tables': ['t']}, 'query_logger': {'enabled': True}, 'prewarmer': {'enabled': True, 'queries': ['select 1']}},
+              'shards': {'0': {'database': 'db', 'mirrors': [{'host': 'm', 'port': 5433, 'mirroring_target_index': 0}],
+                               'servers': [{'host': 'h', 'port': 5432, 'role': 'primary'}, {'host': 'h2', 'port': 5432, 'role': 'replica'}]}},
+              'users': {'0': {'username': 'u', 'password': 'p', 'auth_type': 'md5', 'pool_size': 5, 'statement_timeout': 0}}}
+CANDIDATES = [True, False, 'zz', 'replica', 'primary', 'session', 'transaction', 'sha1', 'pg_bigint_hash', 'trust', 'md5', 'loc', 'random', 'shard_1', 7, 8,
+              ['zz'], [['zz']], [], {}, None]
+
+
+@expectation('c14_identity')
+def c14_identity(which):
+    def f(res):
+        r = res[0]
+        if 'panic' in r or 'error' in r:
+            return ('panic' in r), 'native: %r' % (r,)
+        bad = r.get(which)
+        return bool(bad), 'native: two definitions that differ in that field (%s vs %s): == says %s, Pool::hash_value equal: %s, Config == says %s' % (
+            r.get('a'), r.get('b'), r.get('eq'), r.get('hash_eq'), r.get('config_eq'))
+    return f
+
+
+def o3_identity(chk, prog, structs, report_as='C14'):
+    for S in structs:
+        names = prog.src.structs.get(S)
+        tys = prog.src.struct_types.get(S)
+        eqf = prog.lookup('<%s as PartialEq>::eq' % S)
+        hashf = prog.lookup('<%s as Hash>::hash' % S)
+        in_pool = S in POOL_TREE
+        ob = chk.begin('O3-identity-%s' % S, 'config::%s: its PartialEq::eq%s executed from MIR on two values that are identical except for ONE field (every field in '
+                       'turn; integer and bool fields symbolic and different, other fields distinct placeholders compared by identity): eq must be false%s' %
+                       (S, ' and Hash::hash' if in_pool else '', ' and the sequences written to the hasher must differ for every pair of different values' if in_pool else ''),
+                       {'fields': len(names or [])})
+        if not names or len(eqf) != 1 or (in_pool and len(hashf) != 1):
+            chk.note_inconclusive('O3-identity-%s: cannot locate the struct or its PartialEq / Hash impl' % S)
+            chk.end(ob)
+            continue
+        for fi, (fname, fty) in enumerate(zip(names, tys)):
+            ip = chk.interp(prog, 'O3-identity-%s' % S)
+
+            def fall(c, args):
+                cands = c.ip.prog.lookup(c.callee)
+                if cands:
+                    return c.ip.call_function(c.ip.pick_candidate(c.callee, cands, args, c.dest_ty, c.frame, c.argops), args)
+                raise Inconclusive('no MIR and no model for callee: ' + c.callee)
+
+            def ph(ip_, v):
+                for _ in range(3):
+                    if isinstance(v, Ptr):
+                        v = deref(ip_, v)
+                return v
+
+            def m_eq(c, a, b):
+                x, y = ph(c.ip, a), ph(c.ip, b)
+                if isinstance(x, Opaque) and x.ty == 'Fld' and isinstance(y, Opaque) and y.ty == 'Fld':
+                    r = BV(1, int(x.data == y.data))
+                    return r if c.m.group(1) == 'eq' else BV(1, 1 - r.v)
+                if isinstance(x, BV) and isinstance(y, BV):
+                    r = bv(1, z3.If(x.z() == y.z(), z3.BitVecVal(1, 1), z3.BitVecVal(0, 1)))
+                    return r if c.m.group(1) == 'eq' else bv(1, ~r.z())
+                return fall(c, [a, b])
+
+            def m_hash(c, a, st):
+                x = ph(c.ip, a)
+                if (isinstance(x, Opaque) and x.ty == 'Fld') or isinstance(x, BV):
+                    ph(c.ip, st).data.append(x)
+                    return unit()
+                return fall(c, [a, st])
+            ip.overrides += [(re.compile(r'^<.* as (?:std::cmp::)?PartialEq(?:<.*>)?>::(eq|ne)$'), m_eq),
+                             (re.compile(r'^<.* as (?:std::hash::)?Hash>::hash::<.*>$'), m_hash)]
+
+            def harness(ip_):
+                sides = []
+                for side in (0, 1):
+                    vals = []
+                    for k, (n, ty) in enumerate(zip(names, tys)):
+                        w = PRIMS.get(ty.strip())
+                        if w:
+                            vals.append(ip_.fresh(w, '%s_%d' % (n, side if k == fi else 0)) if k == fi else ip_.env.setdefault('shared', {}).setdefault(n, ip_.fresh(w, n)))
+                        else:
+                            vals.append(Opaque('Fld', '%s.%s' % (S, n), (n, side if k == fi else 0)))
+                    sides.append(Agg(vals, S, list(names)))
+                a, b = sides
+                va, vb = a.fields[fi], b.fields[fi]
+                if isinstance(va, BV):
+                    ip_.assume(va.z() != vb.z())
+                r = ip_.call_function(eqf[0], [Ptr(Cell(a, 'a')), Ptr(Cell(b, 'b'))])
+                ob.nontrivial += 1
+                rep = {'commands': [{'op': 'config_identity', 'pool_patch': POOL_PATCH, 'path': PATHS.get(S, []) + [fname], 'candidates': CANDIDATES,
+                                     'general_field': fname if S == 'General' else None, 'config_field': fname if S == 'Config' else None}]}
+                if ip_.is_sat(as_cond(r)):
+                    gate = 'reload_config compares the old and the new configuration with it: a reload that changes only this setting is taken for "nothing changed"'
+                    chk.report(ob, '%s/O3/eq-ignores-field/%s.%s' % (report_as, S, fname), '%s == %s although they differ in `%s` (%s)' % (S, S, fname, gate), {},
+                               dict(rep, expect=['c14_identity', 'eq' if S not in ('Config', 'General') else 'config_eq']))
+                if in_pool:
+                    logs = []
+                    for v in (a, b):
+                        st = Opaque('Hasher', 'rec', [])
+                        ip_.call_function(hashf[0], [Ptr(Cell(v, 'v')), Ptr(Cell(st, 'st'))])
+                        logs.append(st.data)
+                    la, lb = logs
+                    same = None
+                    if len(la) == len(lb):
+                        conds = []
+                        for x, y in zip(la, lb):
+                            if isinstance(x, BV) and isinstance(y, BV) and x.w == y.w:
+                                conds.append(x.z() == y.z())
+                            elif isinstance(x, Opaque) and isinstance(y, Opaque):
+                                conds.append(z3.BoolVal(x.data == y.data))
+                            else:
+                                conds.append(z3.BoolVal(False))
+                        same = ip_.is_sat(z3.And(*conds)) if conds else True
+                    if same:
+                        chk.report(ob, '%s/O3/hash-ignores-field/%s.%s' % (report_as, S, fname), 'two %s values that differ in `%s` write the same sequence to the hasher: '
+                                   'Pool::hash_value is unchanged, from_config keeps the pool built from the OLD definition and the new value never takes effect' % (S, fname), {},
+                                   dict(rep, expect=['c14_identity', 'hash_eq']))
+                    if len(ob.samples) < 2:
+                        ob.samples.append({'field': fname, 'hasher_writes': len(la)})
+            try:
+                ip.explore(harness)
+            except Inconclusive as e:
+                chk.note_inconclusive('O3-identity-%s.%s: %s' % (S, fname, e))
+            chk.absorb(ob, ip)
+        chk.end(ob)
+
+
 def last_hash(ip_):
     h = ip_.env.get('last_hash_value')
     return h.z() if h is not None else None
@@ -282,15 +416,21 @@ def main(chk):
         'run with file IO, TOML parsing, validation, DNS-cache and pool construction replaced by models whose outcome the solver chooses, and '
         'with the global CONFIG store / pool rebuild as recorders: on every path where reading, parsing or validating fails, nothing is stored, '
         'the pools are not rebuilt and Err is returned; pools are rebuilt only when the configuration changed. What counts as a valid '
-        'configuration is decided under C15; which pools survive a rebuild is decided where ConnectionPool::from_config is encoded.')
+        'configuration is decided under C15; which pools survive a rebuild is decided where ConnectionPool::from_config is encoded (O2). '
+        '(O3) What counts as "the definition changed": the PartialEq impls behind `old_config != new_config` and the Hash impls behind '
+        'Pool::hash_value are executed from MIR for every struct of the configuration tree, on pairs of values that differ in exactly one field: '
+        'no field may be left out of either.')
     chk.assumptions += [
         'in-flight transactions, connection survival, removed pools and every timing question are schedules over global state and bb8: outside the claim',
         'toml::from_str / Config::validate / from_config are symbolic-outcome stubs in this check (their own behaviour: C15 and DESIGN.md)',
+        'O3: std String / Option / Vec / BTreeMap / HashMap equality and hashing are structural (library contract); DefaultHasher maps different write sequences to different values (collisions outside the claim)',
+        'O3 decides that a changed POOL definition is noticed; General settings baked into a pool that is kept (ban_time, timeouts) are not re-applied to it -- outside the property (it requires unchanged pools to be kept)',
     ]
     prog = chk.program('on')
     o1_parse(chk, prog)
     o1_reload(chk, prog)
     o2_pools(chk, prog)
+    o3_identity(chk, prog, POOL_TREE + ['Config', 'General'])
 
 
 if __name__ == '__main__':
